@@ -90,7 +90,7 @@ def gen_score_case(rng):
             for j in range(1 if ep else 0, len(r)):
                 r[j] += rng.choice([0, 0, 1, -1, 2])
     finite = rng.random() > 0.15
-    return {'ep': ep, 'm': m, 'E': E, 'P': P, 'finite': finite,
+    return {'ep': ep, 'm': m, 'E': E, 'P': P, 'finite': finite, 'shared_kw': rng.random() < 0.35,
             'metric': rng.choice(['mse', 'mae']),
             'es': rng.choice(['nan', 'raise', -5.0, -0.5, -100.0, '-inf']),
             'n_steps': rng.choice([None, None, 0, 1, 2, 5]),
@@ -101,6 +101,9 @@ def es_value(es):
     return {'nan': np.nan, 'raise': 'raise', '-inf': -math.inf}.get(es, es)
 
 
+SHARED_KW = {'multioutput': 'uniform_average'}     # one dict object reused across calls, as a cached scorer does
+
+
 def run_score(c):
     P = np.array(c['P'], dtype=float)
     E = np.array(c['E'], dtype=float)
@@ -108,9 +111,17 @@ def run_score(c):
         P = P.copy()
         P[-1, -1] = np.inf
     metric = {'mse': 'neg_mean_squared_error', 'mae': 'neg_mean_absolute_error'}[c['metric']]
-    return outcome(lambda: pykoop.score_trajectory(P, E, n_steps=c['n_steps'], discount_factor=float(c['gamma']),
-                                                   regression_metric=metric, error_score=es_value(c['es']),
-                                                   min_samples=c['m'], episode_feature=c['ep']))
+    kw = SHARED_KW if c.get('shared_kw') else None
+    before = dict(SHARED_KW)
+    out = outcome(lambda: pykoop.score_trajectory(P, E, n_steps=c['n_steps'], discount_factor=float(c['gamma']),
+                                                  regression_metric=metric, regression_metric_kw=kw,
+                                                  error_score=es_value(c['es']),
+                                                  min_samples=c['m'], episode_feature=c['ep']))
+    if set(SHARED_KW) != set(before):
+        c['kw_mutated'] = sorted(set(SHARED_KW) - set(before))
+        for k in c['kw_mutated']:
+            SHARED_KW.pop(k, None)          # keep the harness's own dict clean for the following cases
+    return out
 
 
 def score_line(c):
@@ -309,6 +320,9 @@ def run(ctx):
                 ctx.mismatch(kind, cc, list(o), rep[:80])
                 bad.append(c)
         if kind == 'score':
+            if c.get('kw_mutated'):
+                ctx.fail(f"score_trajectory wrote {c['kw_mutated']} into the caller's regression_metric_kw dictionary "
+                         '(a later call with the same dictionary reuses stale weights)', cc, {'call': 'score_trajectory'})
             why = oracle_formula(c)
             if why:
                 ctx.fail(why, cc, {'call': 'score_trajectory'})
